@@ -61,6 +61,7 @@ def guards(node: ast.AST, stop: Optional[ast.AST] = None) -> list[tuple[ast.expr
     child = node
     for a in ancestors(node):
         if a is stop:
+            _sibling_guards(a, child, out)
             break
         if isinstance(a, (ast.If, ast.While)):
             if child in a.body:
@@ -75,19 +76,23 @@ def guards(node: ast.AST, stop: Optional[ast.AST] = None) -> list[tuple[ast.expr
         elif isinstance(a, ast.BoolOp) and child in a.values:
             for v in a.values[:a.values.index(child)]:
                 out.append((v, isinstance(a.op, ast.And)))
-        # guard clauses among the earlier siblings of *child* in a statement block of *a*
-        for fld in ("body", "orelse", "finalbody"):
-            blk = getattr(a, fld, None)
-            if isinstance(blk, list) and child in blk:
-                for st in blk[:blk.index(child)]:
-                    if isinstance(st, ast.If) and not st.orelse and not may_fall_through(st.body):
-                        out.append((st.test, False))
-                    elif isinstance(st, ast.If) and st.orelse and not may_fall_through(st.orelse) and may_fall_through(st.body):
-                        out.append((st.test, True))
+        _sibling_guards(a, child, out)
         if isinstance(a, FUNCS):
             break
         child = a
     return out
+
+
+def _sibling_guards(a: ast.AST, child: ast.AST, out: list) -> None:
+    """guard clauses among the earlier siblings of *child* in a statement block of *a*"""
+    for fld in ("body", "orelse", "finalbody"):
+        blk = getattr(a, fld, None)
+        if isinstance(blk, list) and child in blk:
+            for st in blk[:blk.index(child)]:
+                if isinstance(st, ast.If) and not st.orelse and not may_fall_through(st.body):
+                    out.append((st.test, False))
+                elif isinstance(st, ast.If) and st.orelse and not may_fall_through(st.orelse) and may_fall_through(st.body):
+                    out.append((st.test, True))
 
 
 def atomic_guards(node: ast.AST, stop: Optional[ast.AST] = None) -> list[tuple[ast.expr, bool]]:
